@@ -121,7 +121,9 @@ def run(ctx):
                 "order-destroying operation applied between the queue and the message set: %s" % [norm(b) for b in bad],
                 where(f, bad[0] if bad else f.node), "messages of one partition reach the broker out of order")
     # _send_batch: loop over the swapped-out list, which is the list handed to the send stage
-    swap = [n for n in ctx.cfg(sb).nodes if node_assign_value(n, "_batch_reqs") is not None]
+    csb = ctx.cfg(sb)
+    fsb = ctx.facts(sb)
+    swap = [n for n in csb.nodes if node_assign_value(n, "_batch_reqs") is not None]
     need(swap, "no swap-out of _batch_reqs in _send_batch")
     st = swap[0].stmt
     local = None
@@ -129,7 +131,34 @@ def run(ctx):
         for t, v in zip(st.targets[0].elts, st.value.elts):
             if unparse(v) == "self._batch_reqs" and isinstance(t, ast.Name):
                 local = t.id
-    loops = [x for x in walk_body_shallow(sb.body) if isinstance(x, ast.For) and unparse(x.iter) == local]
+    else:
+        # read into a local, then cleared: the definition fact of the local still holds on entry to the clearing node
+        from ..cfg import def_facts
+        for nm, e in def_facts(fsb[swap[0].id]).items():
+            if unparse(e) == "self._batch_reqs":
+                local = nm
+    # every partition lookup is made while iterating that local, in order: a `for` over it or a comprehension over it
+    lookups = [c for c in ast.walk(sb.node) if isinstance(c, ast.Call) and call_name(c) == "_next_partition"]
+    parents = {}
+    for p_ in ast.walk(sb.node):
+        for ch in ast.iter_child_nodes(p_):
+            parents[ch] = p_
+    loops = []
+    for c in lookups:
+        x = c
+        holder = None
+        while x in parents and holder is None:
+            x = parents[x]
+            if isinstance(x, ast.For) and unparse(x.iter) == local and not any(isinstance(y, (ast.Break, ast.Continue)) for y in ast.walk(x)):
+                holder = x
+            elif isinstance(x, (ast.ListComp, ast.GeneratorExp)) and len(x.generators) == 1 and not x.generators[0].ifs and unparse(
+                    x.generators[0].iter) == local:
+                holder = x
+        tv = holder.target if isinstance(holder, ast.For) else (holder.generators[0].target if holder is not None else None)
+        if holder is not None and isinstance(tv, ast.Name) and [unparse(a) for a in c.args] == ["%s.topic" % tv.id, "%s.key" % tv.id]:
+            loops.append(holder)
+    if len(lookups) != 1:
+        loops = []
     arg_ok = bool(idx_send) and len(regs[idx_send[0]]["call"].args) >= 2 and unparse(
         regs[idx_send[0]]["call"].args[1]) == local
     r.check(local is not None and len(loops) == 1 and arg_ok, "%s#lookup-order" % sb.qname,
